@@ -155,7 +155,8 @@ func TestVerif_C18_ConditionalSequences(t *testing.T) {
 		defer os.Remove(fn)
 		p := "/galene-api/v0/.groups/" + g
 		auth := basic("root", "rootpw-MARKSECRETroot")
-		var seen []string // tags served or computed so far
+		var seen []string // tags served so far
+		tagVersion := map[string]string{}
 		var log []string
 		refused, accepted, collisions := 0, 0, 0
 		n := rapid.IntRange(2, 14).Draw(t, "nreq")
@@ -176,18 +177,31 @@ func TestVerif_C18_ConditionalSequences(t *testing.T) {
 			if obj == "user" {
 				exists = userExists
 			}
-			objTag := cur
-			if !exists {
-				objTag = ""
+			// the tag is whatever the server serves for the object (its format is the server's business); the file's
+			// size and modification time only identify the version
+			objTag := ""
+			if exists {
+				r0, err := rig.raw("GET", path, map[string]string{"Authorization": auth}, nil)
+				if err != nil || r0.Status != 200 || r0.Header.Get("Etag") == "" {
+					t.Fatalf("GET %s of an existing object: %v %+v", obj, err, r0)
+				}
+				objTag = r0.Header.Get("Etag")
+				if v, dup := tagVersion[obj+objTag]; dup && v != cur {
+					t.Fatalf("C18: two versions of the definition that differ in size or modification time (%s, %s) are served under the same tag %s: a writer holding it cannot tell them apart [%s]",
+						v, cur, objTag, strings.Join(log, ";"))
+				}
+				tagVersion[obj+objTag] = cur
+				seen = append(seen, objTag)
 			}
+			curTag := objTag
 			method := rapid.SampledFrom([]string{"GET", "PUT", "PUT", "PUT", "DELETE"}).Draw(t, "method")
 			hdr := map[string]string{"Authorization": auth, "Content-Type": "application/json"}
 			var cond, condVal string
 			switch rapid.IntRange(0, 7).Draw(t, "cond") {
 			case 0:
 			case 1, 2:
-				cond, condVal = "If-Match", cur
-				if cur == "" {
+				cond, condVal = "If-Match", curTag
+				if curTag == "" {
 					cond = ""
 				}
 			case 3:
@@ -203,9 +217,9 @@ func TestVerif_C18_ConditionalSequences(t *testing.T) {
 					cond, condVal = "If-Match", `"0-0", `+seen[len(seen)-1]+`, W/"x"`
 				}
 			case 7:
-				cond, condVal = rapid.SampledFrom([]string{"If-Match", "If-None-Match"}).Draw(t, "which"), rapid.SampledFrom([]string{`"unterminated`, `garbage`, `W/` + cur, ","}).Draw(t, "bad")
-				if cur != "" && method == "GET" && rapid.Bool().Draw(t, "inmCurrent") {
-					cond, condVal = "If-None-Match", cur
+				cond, condVal = rapid.SampledFrom([]string{"If-Match", "If-None-Match"}).Draw(t, "which"), rapid.SampledFrom([]string{`"unterminated`, `garbage`, `W/` + curTag, ","}).Draw(t, "bad")
+				if curTag != "" && method == "GET" && rapid.Bool().Draw(t, "inmCurrent") {
+					cond, condVal = "If-None-Match", curTag
 				}
 			}
 			if cond != "" {
@@ -226,13 +240,10 @@ func TestVerif_C18_ConditionalSequences(t *testing.T) {
 			log = append(log, fmt.Sprintf("%s %s %s:%s -> %d", method, obj, cond, condVal, resp.Status))
 			ok2xx := resp.Status >= 200 && resp.Status < 300
 			after := fileTag(fn)
-			if after != "" {
-				seen = append(seen, after)
-			}
 			if method == "GET" {
 				if ok2xx {
-					if et := resp.Header.Get("Etag"); et != cur {
-						t.Fatalf("GET %s served ETag %s, the file's tag is %s", obj, et, cur)
+					if et := resp.Header.Get("Etag"); et != curTag {
+						t.Fatalf("two successive GETs of %s with nothing in between served different tags: %s then %s", obj, curTag, et)
 					}
 				}
 				if cond == "If-None-Match" && exists {
@@ -355,11 +366,16 @@ func TestVerif_C18_RacingWriters(t *testing.T) {
 		}()
 		exactlyOne := 0
 		for round := 0; round < rounds; round++ {
-			tag := fileTag(fn)
 			path := p
 			if onUser {
 				path = p + "/.users/u1"
 			}
+			// every writer holds the tag the server serves for the current version
+			r0, err := rig.raw("GET", path, map[string]string{"Authorization": auth}, nil)
+			if err != nil || r0.Status != 200 || r0.Header.Get("Etag") == "" {
+				t.Fatalf("GET before the race: %v %+v", err, r0)
+			}
+			tag := r0.Header.Get("Etag")
 			status := make([]int, k)
 			var ww sync.WaitGroup
 			start := make(chan struct{})
